@@ -8,7 +8,7 @@ swap), PEM header edits (Proc-Type/DEK-Info, BEGIN/END tag swaps), base64 body s
 file and structure-aware edits of the decoded body (DER bytes; OpenSSH container fields: cipher, kdf,
 kdf options, key count, public blob, checkints, private fields, padding) re-encoded afterwards. Each
 file is loaded with one of the three key classes (usually the matching one), password none/right/
-wrong, through from_private_key(file object) or from_private_key_file.
+wrong/empty, through from_private_key(file object) or from_private_key_file.
 Oracle: the load raises SSHException (incl. PasswordRequiredException), or returns a key that signs
 and whose signature verifies under Class(data=key.asbytes()) and under the independent verifier
 (vlib.keys.RefPub built from key.asbytes()). Anything else is a violation bucketed by
@@ -34,7 +34,7 @@ RULE = (
     "encrypted, all three key types, wrong-type files), 1-4 mutations (byte flip/delete/insert/replace/truncate, line "
     "drop/dup/swap, Proc-Type/DEK-Info/BEGIN-END tag edits, base64 splice, structure-aware edits of the decoded DER or "
     "OpenSSH container fields incl. cipher/kdf names, kdf options, key count, checkints, private fields, padding), a key "
-    "class (matching 70%), password none/right/wrong and the entry point (file object or file name); non-trivial = "
+    "class (matching 70%), password none/right/wrong/empty and the entry point (file object or file name); non-trivial = "
     "mutated text differs from the seed and still contains a BEGIN line; distinct by SHA-1 of (class, password, entry "
     "point, file bytes)"
 )
@@ -305,7 +305,7 @@ def recipes(draw):
     return {
         "seed": seed,
         "cls": cls,
-        "pw": draw(st.sampled_from(["right", "right", "none", "wrong"])),
+        "pw": draw(st.sampled_from(["right", "right", "right", "none", "wrong", "wrong", "empty"])),
         "via": draw(st.sampled_from(["fileobj", "fileobj", "file"])),
         "muts": draw(st.lists(mutation_openssh if "BEGIN OPENSSH" in seeds()[seed][2] else mutation_pem, min_size=1, max_size=4)),
     }
@@ -528,6 +528,8 @@ def realise(rc):
         password = None
     elif rc["pw"] == "right":
         password = pw0
+    elif rc["pw"] == "empty":
+        password = ""
     else:
         password = "wr0ng"
     return text, password, kinds
@@ -545,7 +547,7 @@ def load(ctx, cls_name, text, password, via):
     cls = getattr(paramiko, cls_name)
     try:
         if via == "file":
-            path = os.path.join(ctx.tmpdir(), "k")
+            path = os.path.join(K.fast_tmpdir(ctx), "k")
             with open(path, "wb") as f:
                 f.write(text)
             key = cls.from_private_key_file(path, password)
@@ -639,14 +641,124 @@ def execute(ctx, rc, state):
     ctx.violation(clause, bucket, case, detail)
 
 
+# ----------------------------------------------------------------------------- atheris (thorough only, optional)
+
+ATHERIS_PASSWORDS = [None, "television", GEN_PW, "wr0ng", "abc123", "asdf", ""]
+
+
+def _atheris_decode(data):
+    """fuzz input -> (cls, password, text): first byte selects class and password."""
+    sel = data[0]
+    return CLASSES[sel % 3], ATHERIS_PASSWORDS[(sel // 3) % len(ATHERIS_PASSWORDS)], bytes(data[1:])
+
+
+def _atheris_main():
+    """Child process: argv = [out.json, corpus_dir, seconds, dict file]. Coverage-guided run of the same oracle."""
+    import atexit
+    import json
+    import sys
+
+    import atheris
+
+    out, corpus, seconds = sys.argv[1], sys.argv[2], int(sys.argv[3])
+    core.setup_paths()
+    with atheris.instrument_imports(include=["paramiko.pkey", "paramiko.rsakey", "paramiko.ecdsakey", "paramiko.ed25519key", "paramiko.message", "paramiko.util"]):
+        import paramiko  # noqa: F401
+    found = {}
+    stats = {"runs": 0, "outcomes": {}}
+
+    def dump():
+        with open(out + ".tmp", "w") as f:
+            json.dump({"stats": stats, "found": found}, f)
+        os.replace(out + ".tmp", out)
+
+    atexit.register(dump)  # libFuzzer normally leaves through _exit: results are also written periodically
+
+    def one(data):
+        if len(data) < 1:
+            return
+        cls, pw, text = _atheris_decode(data)
+        outcome, res = judge(None, cls, text, pw, "fileobj")
+        stats["runs"] += 1
+        stats["outcomes"][outcome] = stats["outcomes"].get(outcome, 0) + 1
+        new = False
+        if res is not None:
+            sig = "%s|%s" % (res[0], res[1])
+            if sig not in found or len(text) < len(bytes.fromhex(found[sig]["text"])):
+                new = sig not in found
+                found[sig] = {"clause": res[0], "bucket": res[1], "detail": res[2][:1000], "cls": cls, "password": pw, "text": text.hex()}
+        if new or stats["runs"] % 500 == 0:
+            dump()
+
+    atheris.Setup([sys.argv[0], corpus, "-dict=" + sys.argv[4], "-max_total_time=%d" % seconds, "-timeout=60", "-max_len=6000", "-print_final_stats=0", "-verbosity=0"], one)
+    atheris.Fuzz()
+
+
+def run_atheris(ctx, seconds, with_seed_corpus):
+    """Run the atheris child and fold its findings into ctx. Returns False when atheris is unavailable."""
+    import json
+    import subprocess
+    import sys
+
+    try:
+        import atheris  # noqa: F401
+    except Exception:
+        ctx.inconc("atheris-not-importable")
+        return False
+    d = K.fast_tmpdir(ctx)
+    corpus = os.path.join(d, "corpus-%d" % int(with_seed_corpus))
+    os.makedirs(corpus, exist_ok=True)
+    if with_seed_corpus:
+        for i, name in enumerate(seed_names()):
+            cls, pw, text = seeds()[name]
+            pwi = ATHERIS_PASSWORDS.index(pw) if pw in ATHERIS_PASSWORDS else 0
+            with open(os.path.join(corpus, "seed-%02d" % i), "wb") as f:
+                f.write(bytes([CLASSES.index(cls) + 3 * pwi]) + text.encode("ascii"))
+    out = os.path.join(d, "atheris-%d.json" % int(with_seed_corpus))
+    # libFuzzer dictionary: the envelope tokens (the only way an empty corpus gets past the BEGIN-line check)
+    tokens = []
+    for tag in ("RSA", "EC", "OPENSSH"):
+        tokens += ["-----BEGIN %s PRIVATE KEY-----\\x0a" % tag, "-----END %s PRIVATE KEY-----\\x0a" % tag]
+    tokens += ["Proc-Type: 4,ENCRYPTED\\x0a", "DEK-Info: AES-128-CBC,", "DEK-Info: DES-EDE3-CBC,", "b3BlbnNzaC1rZXktdjEA", "AAAABG5vbmUAAAAEbm9uZQAAAAAAAAAB", "\\x0a"]
+    with open(os.path.join(d, "dict.txt"), "w") as f:
+        for t in tokens:
+            f.write('"%s"\n' % t)
+    env = dict(os.environ)
+    env["PYTHONPATH"] = core.VERIF + os.pathsep + env.get("PYTHONPATH", "")
+    code = "import sys; sys.path.insert(0, %r); from vlib import core; core.setup_paths(); import props.c37 as m; m._atheris_main()" % core.VERIF
+    try:
+        subprocess.run([sys.executable, "-c", code, out, corpus, str(seconds), os.path.join(d, "dict.txt")], env=env, stdout=subprocess.DEVNULL, stderr=subprocess.DEVNULL, timeout=seconds + 300, cwd=core.VERIF)
+    except subprocess.TimeoutExpired:
+        ctx.inconc("atheris-timeout")
+    if not os.path.exists(out):
+        ctx.inconc("atheris-no-result")
+        return True
+    with open(out) as f:
+        res = json.load(f)
+    tag = "atheris-seeded" if with_seed_corpus else "atheris-empty-corpus"
+    ctx.count(tag + "-runs", res["stats"]["runs"])
+    for k, v in res["stats"]["outcomes"].items():
+        ctx.count(tag + ":" + k, v)
+    for sig, f_ in sorted(res["found"].items()):
+        text = bytes.fromhex(f_["text"])
+        case = {"recipe": {"atheris": tag}, "cls": f_["cls"], "password": f_["password"], "via": "fileobj", "text": text}
+        ctx.case({"cls": f_["cls"], "password": f_["password"], "via": "fileobj", "text": text}, True, [tag + "-finding"])
+        ctx.violation(f_["clause"], f_["bucket"], case, f_["detail"])
+    return True
+
+
 def run(ctx):
     ctx.set_budget(60, 800)
     state = {"seen": set(), "known": set(k for k, e in core.load_known(PROPERTY).items() if e.get("status") == "open")}
     ctx.assume("file objects handed to from_private_key are text streams (bytes of the mutated file mapped through latin-1)")
     ctx.assume("bcrypt.kdf is interposed by the harness: memoised, calls with more than %d rounds refused and counted as excluded" % MAX_ROUNDS)
     seeds()
-    ctx.explore(recipes(), lambda rc: execute(ctx, rc, state), ctx.scale(6000, 70000), shrink=False)
+    fuzz = ctx.tier == "thorough" and ctx.worker in (0, 1)
+    ctx.explore(recipes(), lambda rc: execute(ctx, rc, state), ctx.scale(5000, 20000 if fuzz else 60000), shrink=False)
     ctx.note("seed_files", len(seeds()))
+    if fuzz:
+        # coverage-guided campaign on the same oracle: worker 0 from the seed corpus, worker 1 from an empty corpus
+        run_atheris(ctx, 300, with_seed_corpus=(ctx.worker == 0))
 
 
 def replay(ctx, case):
